@@ -19,7 +19,7 @@ From Coq Require Import NArith Arith List Bool Permutation.
 From Blue Require Import Gen.Const_Sync42 Sync42.ModelLru Sync42.ModelWaitList Sync42.ModelWcq.
 From Blue Require Import Sync42.AcceptWcq Sync42.ProofsLru Sync42.ProofsWaitList Sync42.ProofsC18.
 From Blue Require Import Sync42.ProofsWcqInv Sync42.ProofsWcqLive1 Sync42.ProofsWcqProg Sync42.ProofsWcq.
-From Blue Require Import Sync42.ProofsAccept Sync42.PropsPrelude.
+From Blue Require Import Sync42.ProofsWcqTerm Sync42.ProofsWcqStarve Sync42.ProofsAccept Sync42.PropsPrelude.
 Import ListNotations.
 Open Scope nat_scope.
 
@@ -132,11 +132,86 @@ Theorem C18_queue_no_lost_wakeup : forall (Inp Outp Acc CS : Type) (acc0 : Acc)
       (exists i, t_pc th' = PLinkSleep i true))).
 Proof. exact wcq_no_lost_wakeup. Qed.
 
+(* progress without any fairness assumption, for the finite workloads of the model: the number of
+   effective thread steps (esteps: scheduled steps that were not blocked) of ANY run is at most
+   33 per submitted call plus 4 per spurious wake-up (a measure on states decreases with every
+   step); so whoever keeps running threads that can move -- in any order -- finishes every call:
+   a run that has taken that many effective steps, or that no thread step can extend, has
+   finished all calls.  (Together with C18_queue_no_deadlock: such a step exists until then.) *)
+Theorem C18_queue_bounded_work : forall (Inp Outp Acc CS : Type) (acc0 : Acc)
+    (can_batch : CS -> Acc -> Inp -> bool) (batch : CS -> Acc -> Inp -> CS * Acc)
+    (work : CS -> nat -> Acc -> CS * list Outp),
+  forall n core progs sched g, 0 < n ->
+  ModelWcq.run Inp Outp Acc CS acc0 can_batch batch work (ginit Inp Outp Acc CS n core progs) sched = Ok g ->
+  esteps Inp Outp Acc CS acc0 can_batch batch work (ginit Inp Outp Acc CS n core progs) sched + measure g
+    <= 33 * length (concat progs) + 4 * nspurious sched.
+Proof. exact wcq_bounded_work_init. Qed.
+
+Theorem C18_queue_every_nonidling_run_completes : forall (Inp Outp Acc CS : Type) (acc0 : Acc)
+    (can_batch : CS -> Acc -> Inp -> bool) (batch : CS -> Acc -> Inp -> CS * Acc)
+    (work : CS -> nat -> Acc -> CS * list Outp),
+  (forall cs n acc, n <= length (snd (work cs n acc))) ->
+  forall n core progs sched g, 0 < n ->
+  ModelWcq.run Inp Outp Acc CS acc0 can_batch batch work (ginit Inp Outp Acc CS n core progs) sched = Ok g ->
+  (33 * length (concat progs) + 4 * nspurious sched
+     <= esteps Inp Outp Acc CS acc0 can_batch batch work (ginit Inp Outp Acc CS n core progs) sched ->
+   all_finished g = true) /\
+  ((forall t, enabled Inp Outp Acc CS acc0 can_batch batch work g t = false) -> all_finished g = true).
+Proof.
+  intros Inp Outp Acc CS acc0 can_batch batch work Hw n core progs sched g Hn Hr.
+  exact (conj (wcq_enough_steps_finish Inp Outp Acc CS acc0 can_batch batch work n core progs sched g Hn Hr)
+              (wcq_maximal_run_finished Inp Outp Acc CS acc0 can_batch batch work Hw n core progs sched g Hn Hr)).
+Qed.
+
+(* "no call blocks forever while other calls keep completing", for calls that are IN the queue
+   (linked): nobody overtakes them.  A call linked at index idx in state g1 and not yet handed to
+   the core is, in every later state g2 in which it has been handed over, preceded at the core by
+   exactly the calls linked before it (indices below idx) and by no call that entered later.
+   (This is the `outside the known class` half of link-starvation below.) *)
+Theorem C18_link_starvation_outside_known : forall (Inp Outp Acc CS : Type) (acc0 : Acc)
+    (can_batch : CS -> Acc -> Inp -> bool) (batch : CS -> Acc -> Inp -> CS * Acc)
+    (work : CS -> nat -> Acc -> CS * list Outp),
+  (forall cs n acc, n <= length (snd (work cs n acc))) ->
+  forall n core progs sched1 g1 sched2 g2, 0 < n ->
+  ModelWcq.run Inp Outp Acc CS acc0 can_batch batch work (ginit Inp Outp Acc CS n core progs) sched1 = Ok g1 ->
+  ModelWcq.run Inp Outp Acc CS acc0 can_batch batch work g1 sched2 = Ok g2 ->
+  forall idx, idx < length (g_links g1) -> length (g_seen g1) <= idx -> idx < length (g_seen g2) ->
+  firstn (S idx) (g_links g2) = firstn (S idx) (g_links g1) /\
+  firstn (S idx) (g_seen g2) = map snd (firstn (S idx) (g_links g1)).
+Proof. exact wcq_linked_fifo. Qed.
+
+(* ... but a call that is still asleep in WaitList::link (more callers than slots) can be
+   overtaken without bound by calls that arrive later (known class link-starvation): notify_one
+   only makes the sleeper runnable, and an arrival that finds room links without sleeping.  For
+   every k there is a schedule on a ring of one slot in which thread 1, which called link first
+   after thread 0's first call, is notified k times with the slot free, is scheduled after each
+   notification (once in every cycle of 16 steps), finds the ring full again each time and is
+   still asleep in link() after thread 0 has completed k calls that all entered the queue later.
+   (starved k g: pcs = [PEnter k; PLinkSleep 9 false], thread 0 has k finished calls, thread 1
+   none, all k+1 links were made by thread 0, waiting_for_available = 1.)  With finite workloads
+   the sleeper does get in once the others stop calling (C18_queue_every_nonidling_run_completes). *)
+Theorem C18_link_starvation_refuted : forall k, exists g,
+  ModelWcq.run nat nat (list nat) unit [] sv_can sv_batch sv_work
+    (ginit nat nat (list nat) unit 1 tt [repeat 7 (S k); [9]]) (starve_sched k) = Ok g /\
+  starved k g /\
+  length (starve_sched k) = 2 + 16 * k /\
+  length (filter (fun a => match a with ARun 1 _ => true | _ => false end) (starve_sched k)) = S k.
+Proof.
+  intro k. destruct (starve_exists k) as (g & Hr & Hs).
+  exists g. exact (conj Hr (conj Hs (starve_sched_fair k))).
+Qed.
+
 (* the tie to the code: a trace of the real queue that the acceptor (AcceptWcq.v) accepts is a
    run of the model, so its final state is covered by the theorems above *)
 Theorem C18_accepted_trace_is_model_run : forall tr g n g',
   accept_trace g n tr = inl g' -> exists sched, h_run g sched = Ok g'.
 Proof. exact accept_trace_sound. Qed.
+
+(* the same for the strict acceptor (every wake-up explained by a notification), whose model
+   component is a_g *)
+Theorem C18_strictly_accepted_trace_is_model_run : forall strict tr st n st',
+  accept_trace_s strict st n tr = inl st' -> exists sched, h_run (a_g st) sched = Ok (a_g st').
+Proof. exact accept_trace_s_sound. Qed.
 
 (* the hypothesis on the core is satisfiable (a core that batches everything and answers each
    input with the batch size) and finished states exist (two threads, one slot) *)
